@@ -15,12 +15,12 @@ func NewSys(o SysOpts, cr cron.Cronner) (*sys.System, error) {
 	conf.UnindexedState = o.Linear
 	conf.CheckExistence = o.CheckExistence
 	cont := sys.ExampleSystemControl()
-	cont.Timing = false
+	cont.Timing = o.Timing
 	cont.LocationTTL = o.TTL
 	max := o.MaxFacts
 	if max == 0 {
 		max = 100000
 	}
-	cont.DefaultLocControl = &core.Control{MaxFacts: max, Verbosity: core.NOTHING, NoTiming: true}
+	cont.DefaultLocControl = &core.Control{MaxFacts: max, Verbosity: core.NOTHING, NoTiming: !o.Timing, CodeProps: o.CodeProps}
 	return sys.NewSystem(ctx, *conf, *cont, cr)
 }
